@@ -328,7 +328,7 @@ func genPhases(t *rapid.T, nc, budget int) []Phase {
 		removed[c] += k
 		calls += n
 	}
-	gcCase := rapid.IntRange(0, 15).Draw(t, "gc") == 0
+	gcCase := rapid.IntRange(0, 39).Draw(t, "gc") == 0
 	np := rapid.IntRange(3, 14).Draw(t, "phases")
 	for p := 0; p < np && calls < budget; p++ {
 		c := 0
@@ -474,7 +474,7 @@ func zeroEvery(t *rapid.T) int {
 
 const rulePhases = "phase histories of up to ~12000 calls (3000 for elements wider than 128 bytes): 3..14 phases among fill n, fill until the number of values ever inserted is a multiple of a block B (+0..2 blocks, +d), " +
 	"fill up to a size, drain n (up to 2 calls beyond empty), drain down to a remainder (1..4, size/2, size/4, size/8, B, B/4, all +d), drain until the number of values ever removed is a multiple of B, drain to empty + 0..3 calls on the empty container, " +
-	"sliding window (n rounds of m in / m out, m in 1,2,3,7), slide until the number inserted is a multiple of B, and (one case in sixteen) runtime.GC() + small allocations between phases; quantities n are 1..8, k*B+d (k 1..5), 2^i+d (i 2..11), B*j/8+d, 1..200 or 1..1500, d in -2..2 (mostly 0), B a power of two 4..1024 fixed per case " +
+	"sliding window (n rounds of m in / m out, m in 1,2,3,7), slide until the number inserted is a multiple of B, and (one case in forty) runtime.GC() + small allocations between phases; quantities n are 1..8, k*B+d (k 1..5), 2^i+d (i 2..11), B*j/8+d, 1..200 or 1..1500, d in -2..2 (mostly 0), B a power of two 4..1024 fixed per case " +
 	"(two cases in three) or drawn per quantity; nine cases in ten end by draining everything (each value is compared on its way out); values are unique ids, optionally every 2nd/7th/64th/100th the zero value; one case in eight is quiet; "
 
 const ruleNTPhases = "; non-trivial = at least 3 phases, more than 32 values inside at some point, more than 32 removals, and insertions after removals (window moved or refill after drain-to-empty)"
